@@ -394,6 +394,15 @@ typedef std::function<void(uint64_t, Rng &)> case_fn;
 // of the case address (rt/ambient.h uses it to swap the global locale), so that --replay reproduces it
 typedef void (*case_hook_fn)(const char *phase, uint64_t index);
 inline case_hook_fn &case_hook() { static case_hook_fn f = nullptr; return f; }
+// per-case stream of placement decisions (rt/vrt_st.h: where inside its heap block an input starts); reseeded from the case
+// address (or, under libFuzzer, from the input bytes) so that a replay places everything the same way
+inline uint64_t &placement_state() { static thread_local uint64_t s = 0; return s; }
+inline uint64_t placement_next() { return splitmix64(placement_state()); }
+// true only on the thread that runs the cases (set by run_case): helper threads of a harness get plain malloc placement
+inline bool &placement_here() { static thread_local bool on = false; return on; }
+// blocks handed out again by the replaced operator new (rt/vrt_alloc.h) at the address of a released one; kept outside the
+// counter map because it is bumped from inside operator new
+inline uint64_t &recycled_new_blocks() { static uint64_t n = 0; return n; }
 
 inline void run_case(const char *name, uint64_t i, const case_fn &fn)
 {
@@ -403,6 +412,8 @@ inline void run_case(const char *name, uint64_t i, const case_fn &fn)
     uint64_t h = fnv_str(name, fnv_u64(opt().seed));
     h = fnv_u64(i, h);
     Rng rng(h);
+    placement_state() = h ^ 0x9e3779b97f4a7c15ull;
+    placement_here() = true;
     cur_begin(name, i);
     cur_mark_here();
     watchdog_arm(case_cpu_budget());
@@ -461,6 +472,7 @@ inline void write_report(bool completed)
 {
     State &s = st();
     Options &o = opt();
+    if (recycled_new_blocks()) s.counters["placement.new_blocks_reusing_the_address_of_a_released_one"] = recycled_new_blocks();
     std::string path = o.outdir + sfmt("/w%d.json", o.worker);
     std::string tmp = path + ".tmp";
     FILE *f = fopen(tmp.c_str(), "w");
@@ -658,7 +670,7 @@ inline int fuzz_one(const uint8_t *data, size_t size, void (*fn)(const uint8_t *
     const size_t before = s.violations.size();
     uint64_t total_before = 0;
     for (auto &kv : s.violations) total_before += kv.second.count;
-    run_case("fuzz", index++, [&](uint64_t, Rng &) { fn(data, size); });
+    run_case("fuzz", index++, [&](uint64_t, Rng &) { placement_state() = fnv1a(data, size); fn(data, size); });
     uint64_t total_after = 0;
     for (auto &kv : s.violations) total_after += kv.second.count;
     if (s.violations.size() != before || total_after != total_before) {
